@@ -54,6 +54,15 @@ Compose(r, x, F) ==
     [] r.op = "apply"  -> [a |-> App(x, S, <<F.a>>), t |-> F.t, l |-> F.l]
     [] r.op = "train"  -> [a |-> F.a, t |-> App(x, S, <<F.t>>), l |-> F.l]
     [] r.op = "label"  -> [a |-> F.a, t |-> F.t, l |-> App(x, S, <<F.l>>)]
+    [] r.op \in {"lmapper", "lapply", "ltrain"} ->
+         \* one operator combining a label actor (label 10x+1, stateful iff r.k = 1) with a main actor (label x): the label
+         \* actor transforms the labels first, the main actor is trained on the labels it produces
+         LET Sl == IF r.k = 1 THEN St(10 * x + 1, Nil, F.t, F.l) ELSE Nil
+             l2 == App(10 * x + 1, Sl, <<F.l>>)
+             Sm == IF r.sf THEN St(x, Nil, F.t, l2) ELSE Nil
+         IN [a |-> IF r.op = "ltrain" THEN F.a ELSE App(x, Sm, <<F.a>>),
+             t |-> IF r.op = "lapply" THEN F.t ELSE App(x, Sm, <<F.t>>),
+             l |-> l2]
     [] r.op = "dump"   -> [a |-> App(x, Nil, <<F.a>>), t |-> F.t, l |-> F.l]     \* + a sink trained on (t, l)
     [] r.op = "mapreduce" ->
          LET Si(i) == IF r.kids[i].sf THEN St(10 * x + i, Nil, F.t, F.l) ELSE Nil IN
@@ -106,6 +115,7 @@ FoldClean(pred, split, i) == \A s \in States(pred) : s.id # split => \A o \in Ou
 (* ------------------------------------------------------------------ *)
 (* expression universes                                                  *)
 Leaf == {E(o, s, 0, <<>>) : o \in Simple, s \in BOOLEAN} \cup {E("dump", TRUE, 0, <<>>)}
+Combos == {E(o, s, k, <<>>) : o \in {"lmapper", "lapply", "ltrain"}, s \in BOOLEAN, k \in {0, 1}}
 Mappers == {E("mapper", s, 0, <<>>) : s \in BOOLEAN}
 MapReduces == {E("mapreduce", FALSE, 0, ks) : ks \in [1..2 -> Mappers]}
 Twice == {E("twice", FALSE, 0, <<>>)}
